@@ -64,14 +64,17 @@ def startsWith (x pre : Str) : Bool := pre.isPrefixOf x
 def joinPath (root p : Str) : Str :=
   if isAbs p then p else if root.isEmpty then p else if root.getLast? == some '/' then root ++ p else root ++ '/' :: p
 
+/-- length in bytes (UTF-8), as `OsStr::len` counts -/
+def byteLen (x : Str) : Nat := (x.map Char.utf8Size).sum
+
 def firstComponentLen (p : Str) : Nat :=
   match components p with
   | [] => 0
-  | c :: _ => (compStr c).length
+  | c :: _ => byteLen (compStr c)
 
 /-- starts_with_systemd_specifier -/
 def startsWithSpecifier (p : Str) : Bool :=
-  if p.length ≤ 1 then false
+  if byteLen p ≤ 1 then false
   else if firstComponentLen p == 2 then
     if startsWith p ['%', '%'] then false else startsWith p ['%']
   else false
